@@ -605,6 +605,29 @@ def extract_fn(unit: str, file: str, item: str, mode: str, contracts, canary: bo
                 if inv_segs:
                     edits.append((open_t.start, open_t.start, ('SEGS', [Seg('\n', {'kind': 'glue'})] + inv_segs + [Seg('        ', {'kind': 'glue'})]), rw('A2')))
 
+    # rule R3: a closure parameter pattern `_` becomes a fresh name (Verus: "only variables are supported here")
+    annotated_params = set()
+    if c and c.closures:
+        _cls0 = find_closures(toks, blo, bhi)
+        for k0, cs0 in c.closures.items():
+            if cs0.params is not None and k0 < len(_cls0):
+                annotated_params.add(_cls0[k0].bar_tok)
+    _n_unused = 0
+    for cl0 in find_closures(toks, blo, bhi):
+        if toks[cl0.bar_tok].text == '||' or cl0.bar_tok in annotated_params:
+            continue
+        d0 = 0
+        for w in range(cl0.bar_tok + 1, cl0.params_end_tok):
+            tw = toks[w]
+            if tw.kind == 'punct' and tw.text in ('(', '[', '<'):
+                d0 += 1
+            elif tw.kind == 'punct' and tw.text in (')', ']', '>'):
+                d0 -= 1
+            elif d0 == 0 and tw.text == '_' and toks[w - 1].text in ('|', ',') and toks[w + 1].text in (',', ':', '|'):
+                _n_unused += 1
+                edits.append((tw.start, tw.end, 'vp_unused%d' % _n_unused, rw('R3')))
+                info.rewrites.append('R3:closure parameter `_`')
+
     # closures (A4)
     if c and c.closures:
         cls = find_closures(toks, blo, bhi)
